@@ -3,6 +3,7 @@
 
 #include <string.h>
 #include <cmath>
+#include <limits>
 
 namespace photospline{
 	
@@ -364,6 +365,17 @@ bool splinetable<Alloc>::read_fits_core(fitsfile* fits, const std::string& fileP
 			throw std::runtime_error("Order "+std::to_string(order[i])+" of dimension "
 			                         +std::to_string(i)+" is not compatible with "
 			                         +std::to_string(naxes[i])+" coefficients");
+	}
+	
+	//The number of coefficients (and their size in bytes) must be representable:
+	//a product of axis lengths which wraps around would pass for a small array.
+	{
+		uint64_t total=1;
+		for(uint32_t i=0; i<ndim; i++){
+			if(naxes[i]!=0 && total>(std::numeric_limits<uint64_t>::max()/sizeof(float))/naxes[i])
+				throw std::runtime_error("Coefficient array dimensions are too large");
+			total*=naxes[i];
+		}
 	}
 	
 	// Compute the total array size and the strides into each dimension
